@@ -34,9 +34,7 @@ THEOREMS = [
     "C17.repr_roundtrip",
     "C17.repr_file",
     "C17.repr_injective",
-    "C17.incremental_counterexample",
-    "C17.incremental_partial",
-    "C17.incremental_partial_unlabelled",
+    "C17.incremental",
     "C17.message_counterexample",
     "C17.message_partial",
     "C17.filename_suffix",
@@ -45,9 +43,8 @@ THEOREMS = [
     "C17.filename_default_partial",
 ]
 PARTIAL = {
-    "C17.incremental_partial": "full statement C17.incremental_statement is false (F5, C17.incremental_counterexample): the per-revision branch_labels sets are left out of the view; "
-                               "that the extended history loads (cycle detection accepts it) is a hypothesis, established on every generated case by the correspondence, not proved",
-    "C17.incremental_partial_unlabelled": "full view (labels included) for histories and new revisions without branch labels; same load hypothesis",
+    "C17.incremental": "full view equality incl. branch labels; that the extended history loads (cycle detection accepts it) is a hypothesis, "
+                       "established on every generated case by the correspondence",
     "C17.message_partial": "full statement C17.message_statement is false (F12): the template pastes message, ids and date unescaped; proved for texts without double quote, backslash and NUL",
     "C17.filename_default_partial": "full statement C17.filename_statement is false: a revision id starting with '.#' or '__init__.' gives a file name the loader skips (generate_revision then returns None); proved for the default template and ids starting with a letter or digit",
 }
@@ -906,9 +903,7 @@ def search(ctx):
 def classify(failure):
     what = failure.get("what", "")
     tags = failure.get("tags", [])
-    # F5: ONLY the branch_labels sets differ, and exactly as the model of add_revision predicts
-    if what.startswith("incremental:") and "differ:labels" in tags and "model-agrees" in tags:
-        return "F5-inherited-branch-labels"
+    # (F5, incremental vs reloaded branch_labels, is fixed in /repo: any `incremental:` failure is a violation again)
     # F12: an accepted request whose file does not load, with a `"""`, backslash or NUL in the pasted texts
     if what.startswith("docstring:") and "f12-class" in tags:
         return "F12-docstring-unescaped"
